@@ -936,6 +936,11 @@ def fold_variant(t, mask, rng, ctx=None):
         # a store through the subscript into one array, directly followed by a load through the same subscript from ANOTHER array
         use = [ass(idx('t16', num(i)), num(100 + i)) for i in range(16)] + [ass(idx('u16', num(i)), num(50 + i)) for i in range(16)] + \
               [ass(idx('t16', e), num(9)), ass(var('res'), idx('u16', e2)), ass(idx('u16', e), num(7)), ass(var('res'), bi('+', var('res'), idx('t16', e2)))]
+    elif ctx == 'cond':
+        # the value as the condition of an if and of a loop (machine mode: what BRZ tests - zero or not)
+        use = [ass(var('res'), num(0)), iff(e, ass(var('res'), num(11)), ass(var('res'), num(22))), iff(e, skip(), ass(var('res'), bi('+', var('res'), num(100)))),
+               ass(var('j'), num(0)), whl(bi('and', bi('<', var('j'), num(2)), un('~', un('~', bi('=', num(1), num(1))))), ass(var('j'), bi('+', var('j'), num(1))))]
+        use = use[:3] + [iff(e, ass(var('res'), bi('+', var('res'), num(1000))), skip())]
     else:
         use = [ass(var('res'), e)]
     procs = {'id': lib_procs()['id'], 'tk': tk,
@@ -1016,6 +1021,12 @@ def fold_trees(rng, tier):
                                     out.append(('subw:%s%s:r:%d:%d:%d' % (op, op2, a, b, c), ('bin', op2, ('leaf', c), ('bin', op, ('leaf', a), ('leaf', b)))))
     for a in (0, 1, 2, 7, 15):
         out.append(('pair:leaf:%d' % a, ('leaf', a)))
+    # conditions: constants and constant expressions that are not truth values (2, -1, the corners), next to 0 and 1
+    for a in (0, 1, 2, 3, -1, 255, 65536, INT_MIN, 2 ** 31 - 1):
+        out.append(('cond:leaf:%d' % a, ('leaf', a)))
+        for b_ in (0, 1, 2, -1):
+            for op in ('+', '-'):
+                out.append(('cond:%s:%d:%d' % (op, a, b_), ('bin', op, ('leaf', a), ('leaf', b_))))
     n2, n3 = (1500, 500) if tier == "quick" else (60000, 40000)
     for i in range(n2):
         out.append(('d2:%d' % i, itree(2) if rng.random() < 0.6 else btree(2)))
@@ -1039,7 +1050,7 @@ def fold_cases(rng, tier):
                 if m not in seen:
                     seen.add(m); masks.append(m)
         for mi, m in enumerate(masks):
-            P = fold_variant(t, m, rng, ctx=tid.split(':')[0] if tid.startswith(('subr:', 'subw:', 'pair:')) else None)
+            P = fold_variant(t, m, rng, ctx=tid.split(':')[0] if tid.startswith(('subr:', 'subw:', 'pair:', 'cond:')) else None)
             if P is None:
                 continue
             cases.append({'id': '%s/m%s' % (tid, ''.join('r' if i in m else 'c' for i in range(n))), 'group': tid,
